@@ -890,10 +890,13 @@ pub fn removal_scenario(opts: ExecOpts) -> BoxedStrategy<Scenario> {
         // (last element) a leaving handle may first be converted to a single-consumer receiver,
         // which has a Drop / unsubscribe of its own (round-5 seed C11-5); the conversion is refused,
         // and the handle kept as it is, while its stream has other handles
-        (any::<bool>(), 0u8..3, any::<bool>(), prop_oneof![2 => Just(0u8), 1 => Just(1u8), 1 => Just(2u8)], vec(0u8..3, 4)),
+        // keep: the third stream's thread adds one more stream while the removals happen and hands
+        // it to a child that drains it - a stream that joins the list while other streams leave
+        // it must not fall out of it again (round-5 seeds C01-6, C02-6)
+        (any::<bool>(), 0u8..3, any::<bool>(), prop_oneof![2 => Just(0u8), 1 => Just(1u8), 1 => Just(2u8)], vec(0u8..3, 4), any::<bool>()),
         schedule(500),
     )
-        .prop_map(move |(q, slow_handles, removers, unsub, pre, producers, third, sink, hows, (second, pre2, unsub2, side_adds, conv), sched)| {
+        .prop_map(move |(q, slow_handles, removers, unsub, pre, producers, third, sink, hows, (second, pre2, unsub2, side_adds, conv, keep), sched)| {
             let bcast = q.flavour == Flavour::Broadcast;
             let second = second && bcast;
             let mut main = Vec::new();
@@ -994,8 +997,18 @@ pub fn removal_scenario(opts: ExecOpts) -> BoxedStrategy<Scenario> {
                     ops.push(Op::AddStream { rx: 0 });
                     ops.push(Op::DropRx { rx: 65535 });
                 }
+                if keep {
+                    ops.push(Op::AddStream { rx: 0 });
+                    ops.push(Op::Spawn { prog: p + 1, tx: vec![], rx: vec![sel(1, 2)] });
+                }
                 ops.push(Op::Drain { rx: 0, how: hows[1], extra: 0 });
+                if keep {
+                    ops.push(Op::JoinAll);
+                }
                 progs.push(Prog { ops, ret: false });
+                if keep {
+                    progs.push(Prog { ops: vec![Op::Drain { rx: 0, how: hows[0], extra: 0 }], ret: false });
+                }
             }
             main.push(Op::JoinAll);
             progs[0].ops = main;
